@@ -230,6 +230,9 @@ def gen_C17(rnd, n, tier):
     for bad in ["script Bad { special(DoBadThing)\n Bad_1:\n if (flag(FLAG_B)) { setvar(VAR_0x8004, 7) } }\n",
                 'script Bad2 { lock msgbox("x")\n Bad2_Text_0:\n release }\n', "script G { lock if (flag(FLAG_A)) { a } release end }\n"]:
         base.append((Case(compile_line(base_cfg(), bad), bad, base_cfg(), {}), 6))
+    for q, pth in enumerate(["data\\maps\\Route1\\scripts.pory", "data\\maps\\Route2\\scripts.pory", "Route3/scripts.pory"]):
+        srcp = "script Route%d_Sign {\n  lock\n  msgbox(\"sign %d\")\n  release\n}\n" % (q, q)
+        cp = base_cfg(lm=True, path=pth); base.append((Case(compile_line(cp, srcp), srcp, cp, {}), 3))
     # two label clashes in different chunks of one script: always the same one is reported
     for bad in ["script Sign {\n  lock\nSign_1:\n  if (flag(FLAG_READ)) {\nSign_2:\n    msgbox(\"Nothing new.\")\n  }\n  release\n}\n",
                 "script W {\n  while (flag(F)) {\nW_Text_0:\n    msgbox(\"x\")\nW_3:\n    a\n  }\nW_1:\n  b\n}\n"]:
@@ -316,7 +319,7 @@ def oracle_C17_all(cases, rawresults):
     return None
 
 # ---------------- C18 ----------------
-JUNK = ["x", "(", ")", "{", "}", "&&", "||", "!", "==", ",", ":", "*", "0", '"s"', "if", "case", "default", "poryswitch", "format", "moves", "`r`", "€", "&", "\u0000", "�", "[", "]", "value", "var", "flag"]
+JUNK = ["٣", "１２", "x٣", "x", "(", ")", "{", "}", "&&", "||", "!", "==", ",", ":", "*", "0", '"s"', "if", "case", "default", "poryswitch", "format", "moves", "`r`", "€", "&", "\u0000", "�", "[", "]", "value", "var", "flag"]
 
 def mutate(src, rnd):
     from gen import TOKEN_RE
@@ -364,7 +367,9 @@ def gen_C18(rnd, n, tier):
                               "movement M { walk_up * 9223372036854775807 }", "script S { a(moves(walk_up * 0x7fffffffffffffff)) }", "movement M { face_down walk_up * 9000000000000000000 }",
                               "movement M { walk_up * 4294967296 walk_down * 65536 }",
                               "script Idle {\n while {\n  w\n  if (flag(D)) {\n   break\n  }\n }\n}\nscript Other {\n lock\n if (flag(A)) {\n  continue\n }\n}",
-                              "script A { while { while { break } break } if (flag(F)) { break } }", "script A { do { switch (var(V)) { case 1: continue } } while (flag(F)) continue }"])
+                              "script A { while { while { break } break } if (flag(F)) { break } }", "script A { do { switch (var(V)) { case 1: continue } } while (flag(F)) continue }",
+                              'text T { ascii"\\0" }', 'script S { debugprint(ascii"\\\\\\0") msgbox("$") msgbox(braille"$") }', 'text T { ascii"\\\\\\\\\\0" }\ntext U { "$" }\ntext V { format(ascii"\\0") }', 'text T { "\\" }\ntext U { ascii"\\" }',
+                              "script S { switch (var(V)) { case 1:\n case 2", "script S { switch (var(V)) { case", "script S { switch (var(V)) { case 1 2 3", "script S { switch (var(V)) { default", "script S { applymovement(0, moves()) }", "script S { applymovement(0, moves( poryswitch(V) { A: walk_up } )) }"])
         elif x < 0.7:
             from cases_data import Pory
             src = Pory(rnd).program()[0]
@@ -414,7 +419,7 @@ def oracle_C18_pair(cn, rn, cl, rl):
 
 # ---------------- C19 ----------------
 IDENTS = ["foo", "é", "naïve_1", "_x", "script", "if", "TRUE", "value", "ünï", "𝒳x", "VAR_𝒳"]
-NUMS = ["0", "7", "42", "-3", "0x1F", "007", "0x", "0x1f", "0xdeadBEEF", "0xa", "-0"]
+NUMS = ["0", "7", "42", "-3", "0x1F", "007", "0x", "0x1f", "0xdeadBEEF", "0xa", "-0", "٣٤", "1２"]
 PUNCT = ["(", ")", "{", "}", "[", "]", ",", ":", "*", "=", "==", "!=", "!", "<", "<=", ">", ">=", "&&", "||"]
 ILLEGAL = ["+", "€", "&", "|", "-", "@", "/", "😀"]
 STRS = ['"hi"', '"héllo wörld"', '""', '"a\\pb$"', '"𠮷野$"', '"😀 ok"']
@@ -608,7 +613,8 @@ def gen_C20(rnd, n, tier):
             line = len(head) + 1 + len(bl) + len(ctx_open) + 4
             src = assemble(head, body)
         elif kind == "two_defaults":
-            body = bl + ["  switch (var(V)) {", "    default: a", "    case 2: c", "    default: b", "  }"]; line = len(head) + 1 + len(bl) + 4
+            first = rnd.choice(["    default: a", "    default:", "    default: a", "    default:"])
+            body = bl + ["  switch (var(V)) {", first, rnd.choice(["    case 2: c", "    case 2:"]), "    default: b", "  }"]; line = len(head) + 1 + len(bl) + 4
             src = assemble(head, body)
         elif kind == "const_redef":
             second = rnd.choice(["const K = 2", "const K = 1", "const J = 1 + 1", "const J = K + 1"])      # also with the very same value
@@ -624,7 +630,7 @@ def gen_C20(rnd, n, tier):
             # the label copies the generated label of a part of the script that is emitted later
             k = rnd.choice([1, 2]) if rnd.random() < 0.5 else rnd.choice([1, 2, 3])
             tail = rnd.choice([["  if (flag(A)) {", "    a", "  }", "  b"], ["  while (flag(A)) {", "    a", "  }", "  b"]]) if k < 3 else ["  while (flag(A)) {", "    a", "  }", "  b"]
-            body = ["  first", "  S_%d:" % k, "  second"] + tail; line = len(head) + 1 + 2
+            body = ["  first", "  S_%d%s:" % (k, rnd.choice(["", "", "(global)", "(local)"])), "  second"] + tail; line = len(head) + 1 + 2
             src = assemble(head, body)
         elif kind == "continue_not_last_in_case":
             cs = rnd.choice(["    case 1:", "    default:"])
@@ -660,17 +666,17 @@ def gen_C20(rnd, n, tier):
         elif kind == "label_clash_nested":
             # the clashing label sits inside the body of a do-while / while / switch case / else block
             lab = rnd.choice(["S_1", "S_2", "S_Text_0"])
-            inner = ["      x", "      %s:" % lab, "      y"]
+            inner = ["      x", "      %s%s:" % (lab, rnd.choice(["", "", "(global)", "(local)"])), "      y"]
             opn, cls = rnd.choice([(["  do {"], ["  } while (flag(L))"]), (["  while (flag(L)) {"], ["  }"]), (["  switch (var(V)) {", "    case 1:"], ["  }"]),
                                    (["  if (flag(A)) {", "    a", "  } else {"], ["  }"]), (["  while (flag(M)) {", "    do {"], ["    } while (flag(L))", "  }"])])
             pre2 = ['  msgbox("hi")'] if lab == "S_Text_0" else []
             body = pre2 + opn + inner + cls + ["  z"]; line = len(head) + 1 + len(pre2) + len(opn) + 2
             src = assemble(head, body)
         elif kind == "label_clash":
-            body = ["  if (flag(A)) {", "    a", "  }", "  S_1:", "  b"]; line = len(head) + 1 + 4
+            body = ["  if (flag(A)) {", "    a", "  }", "  S_1%s:" % rnd.choice(["", "(global)", "(local)"]), "  b"]; line = len(head) + 1 + 4
             src = assemble(head, body)
         else:  # label_text_clash
-            body = bl + ['  msgbox("hi")', "  S_Text_0:", "  b"]; line = len(head) + 1 + len(bl) + 2
+            body = bl + ['  msgbox("hi")', "  S_Text_0%s:" % rnd.choice(["", "(global)", "(local)"]), "  b"]; line = len(head) + 1 + len(bl) + 2
             src = assemble(head, body)
         cfg = base_cfg(optimize=rnd.random() < 0.5, switches={"V": "A"})
         out.append(Case(compile_line(cfg, src), src, cfg, {"kind": kind, "line": line + woff, "wrap": wrap}))
